@@ -102,9 +102,9 @@ Theorem C03_debit_needs_authority_domain_send : forall known cur from benef v pa
 Proof. exact domain_send_authority. Qed.
 Print Assumptions C03_debit_needs_authority_domain_send.
 
-(* WITHDRAW_REWARD: takes from the reward pool (positive amount) or from the SIGNER (negative amount): authorised either way *)
+(* WITHDRAW_REWARD: takes from the reward pool (a protocol account) and the fee payer only (amounts >= 0 since 45cfd0d / ed95e98) *)
 Theorem C03_debit_needs_authority_withdraw_reward : forall known cur signer rpool v payer fp fee ops, 0 <= fee ->
-  effect_withdraw_reward known cur signer rpool v = Some ops -> takes_only_from (ops ++ fee_ops payer fp fee) [signer; rpool; payer].
+  effect_withdraw_reward known cur signer rpool v = Some ops -> takes_only_from (ops ++ fee_ops payer fp fee) [rpool; payer].
 Proof. exact withdraw_reward_authority. Qed.
 Print Assumptions C03_debit_needs_authority_withdraw_reward.
 
